@@ -14,11 +14,23 @@ DY = z3.Function('decimal_year_of_us', z3.IntSort(), z3.RealSort())     # abstra
 
 
 def mk_dataset(c, cls=GDS, **extra):
+    """a data set built by the REAL constructor(s) on symbolic stored rates D0, then given an arbitrary current factor"""
     n0, n1 = c.int('n0'), c.int('n1')
     c.ctx.assume(z3.And(n0 >= 0, n1 >= 1))
     D0 = c.arr2('D0', 'float64', (n0, n1))
     s = c.real('s0')
-    o = c.obj(cls, _data=D0, _scale=s, region=None, name='fc', **extra)
+    klass = c.I.repo.locate_class(cls, c.I)
+    if cls == GDS:
+        o = c.I.instantiate(klass, [], dict(data=D0, region=None, name='fc'))
+    else:
+        region = c.obj('csep.core.regions.CartesianGrid2D', name='region')
+        region.abstract = False        # create_space_magnitude_region binds magnitudes to it
+        mags = c.arr('magnitudes', 'float64', n=n1)
+        kw = dict(magnitudes=mags, data=D0, region=region, name='fc')
+        kw.update(extra)
+        o = c.I.instantiate(klass, [], kw)
+    o.fields['_scale'] = s             # any earlier scaling: the factor is arbitrary
+    o.written = set()
     return o, D0, s
 
 
@@ -68,6 +80,7 @@ class ScaleTwice:
     def lemma(c):
         o, D0, s = mk_dataset(c)
         a, b = c.real('a'), c.real('b')
+        c.inline(GDS + '.sum', o)                     # the total is read before any scaling, too
         c.inline(GDS + '.scale', o, a)
         c.inline(GDS + '.scale', o, b)
         d = c.I.getattr(o, 'data')
@@ -104,10 +117,8 @@ class _ScaleToTestDate:
 
     @classmethod
     def params(cls, c):
-        o, D0, s = mk_dataset(c, GF)
         st, en, t = c.int('start_us'), c.int('end_us'), c.int('test_us')
-        o.fields['start_time'] = mk_dt(st, None)
-        o.fields['end_time'] = mk_dt(en, None)
+        o, D0, s = mk_dataset(c, GF, start_time=mk_dt(st, None), end_time=mk_dt(en, None))
         return dict(self=o, test_datetime=mk_dt(t, None), _D0=D0, _f0=D0.f, _s=s, _t=(st, en, t))
 
     @classmethod
